@@ -12,11 +12,25 @@ DaysOf(o) == {[t \in S |-> o] : S \in Shapes}
 PairSrc == [Cells -> DaysOf("S")]
 PairDst == [Cells -> DaysOf("D")]
 PairSel == {{}, {"a"}, {NoIface}}
+GenPairSel == {{}}
 
-\* configuration "grid": two interfaces x two days over representative day shapes
-GridShapes == {{}, {1}, {1, 3}, {2, 3}}
-GridDays(o) == {[t \in S |-> o] : S \in GridShapes}
-GridSrc == [Cells -> GridDays("S")]
-GridDst == [Cells -> GridDays("D")]
+\* configuration "grid": two interfaces x two days over representative day shapes per cell
+Fn(S, o) == [t \in S |-> o]
+GridCell(c, o) ==
+  IF c = <<"a", 1>> THEN {Fn(S, o) : S \in {{}, {1}, {1, 3}, {2, 3}}}
+  ELSE IF c = <<"a", 2>> THEN {Fn(S, o) : S \in {{}, {1, 3}}}
+  ELSE IF c = <<"b", 1>> THEN {Fn(S, o) : S \in {{}, {2}, {1, 3}}}
+  ELSE {Fn(S, o) : S \in (IF o = "S" THEN {{}} ELSE {{}, {3}})}
+GridSrc == {f \in [Cells -> UNION {GridCell(c, "S") : c \in Cells}] : \A c \in Cells : f[c] \in GridCell(c, "S")}
+GridDst == {f \in [Cells -> UNION {GridCell(c, "D") : c \in Cells}] : \A c \in Cells : f[c] \in GridCell(c, "D")}
+\* smaller grid for the quick tier
+GridCellQ(c, o) ==
+  IF c = <<"a", 1>> THEN {Fn(S, o) : S \in (IF o = "S" THEN {{}, {1}, {1, 3}, {2, 3}} ELSE {{}, {1}, {1, 3}})}
+  ELSE IF c = <<"a", 2>> THEN {Fn(S, o) : S \in {{}, {1, 3}}}
+  ELSE IF c = <<"b", 1>> THEN {Fn(S, o) : S \in (IF o = "S" THEN {{2}, {1, 3}} ELSE {{}, {1, 3}})}
+  ELSE {Fn(S, o) : S \in (IF o = "S" THEN {{}} ELSE {{3}})}
+GridSrcQ == {f \in [Cells -> UNION {GridCellQ(c, "S") : c \in Cells}] : \A c \in Cells : f[c] \in GridCellQ(c, "S")}
+GridDstQ == {f \in [Cells -> UNION {GridCellQ(c, "D") : c \in Cells}] : \A c \in Cells : f[c] \in GridCellQ(c, "D")}
+GenGridSel == {{}, {"a"}, {"a", "b"}, {NoIface}}
 GridSel == {{}, {"a"}, {"a", "b"}, {"b"}, {NoIface}, {"a", NoIface}}
 =============================================================================
